@@ -180,3 +180,10 @@ Definition g_eval (c : gcase) : nat * nat * list bool :=
         (m1 + b4 + b16, m2 + b4 + b16, cov)
   end.
 Definition grouped_results (cs : list gcase) : list (nat * nat * list bool) := map g_eval cs.
+
+(* UTF-8 aware tokens (UtfTok.utokens) against the harness's tokens, which are checked against the real
+   SimpleUtf8Tokenizer's hash sequence: the indices of the values where they differ *)
+From OG Require C20.UtfTok.
+Definition utok_results (splitbytes : list N) (vals : list (list N * list (list N))) : list nat :=
+  let split := fun b => existsb (N.eqb b) splitbytes in
+  mism_from (fun x => negb (list_eqb (list_eqb N.eqb) (UtfTok.utokens split (fst x)) (snd x))) 0 vals.
